@@ -882,14 +882,26 @@ impl<'g, 's> LRTable<'g, 's> {
                                     // For LR parsing non-empty reductions are
                                     // preferred over empty...
                                     if let ParserAlgo::LR = self.settings.parser_algo {
-                                        // ... so remove all empty reductions.
-                                        actions.retain(
-                                            |x| !matches!(x, Action::Reduce(_, len) if *len == 0),
-                                        );
-
-                                        if item.prod_len > 0 || actions.is_empty() {
-                                            // If current reduction is non-empty add it.
+                                        let all_empty_prods = item.prod_len == 0
+                                            && reduces.iter().all(|x| {
+                                                matches!(x, Action::Reduce(prod, _)
+                                                    if self.grammar.production_len(*prod) == 0)
+                                            });
+                                        if all_empty_prods {
+                                            // All competing productions are empty.
+                                            // There is nothing to prefer so the
+                                            // conflict remains.
                                             actions.push(new_reduce.clone())
+                                        } else {
+                                            // ... so remove all empty reductions.
+                                            actions.retain(
+                                                |x| !matches!(x, Action::Reduce(_, len) if *len == 0),
+                                            );
+
+                                            if item.prod_len > 0 || actions.is_empty() {
+                                                // If current reduction is non-empty add it.
+                                                actions.push(new_reduce.clone())
+                                            }
                                         }
                                     } else {
                                         // This R/R conflict can't be resolved.
